@@ -933,15 +933,88 @@ func c09LateTemplate() *Result {
 	return nil
 }
 
+// xRecoveringFunc: a user function that evaluates exec(...) lazily and recovers when it fails (an "or else" helper):
+// rendering goes on after it with '.', the variables and the output destination of the call site
+func xRecoveringFunc() *Result {
+	if os.Getenv("VERIF_TRACE") != "" {
+		return nil // not under the tracer: the trace monitor has no rule for a failure recovered by user code
+	}
+	loader := jet.NewInMemLoader()
+	loader.Set("/boom.jet", `{{ range x := xs }}{{ nosuchfunc() }}{{ end }}`)
+	loader.Set("/main.jet", `A{{ s := "s0" }}{{ orelse(exec("/boom.jet", "CTX"), "n/a") }}|{{ . }}|{{ s }}|{{ isset(x) }}|after`)
+	set := jet.NewSet(loader, jet.WithSafeWriter(nil))
+	set.AddGlobalFunc("orelse", func(a jet.Arguments) (out reflect.Value) {
+		defer func() {
+			if r := recover(); r != nil {
+				out = a.Get(1)
+			}
+		}()
+		return a.Get(0)
+	})
+	t, err := set.GetTemplate("/main.jet")
+	if err != nil {
+		return nil
+	}
+	var b bytes.Buffer
+	err = safeExecute(t, &b, jet.VarMap{}.Set("xs", []int{1}), "D")
+	if want := "An/a|D|s0|false|after"; err != nil || b.String() != want {
+		return &Result{Sig: map[string]interface{}{"kind": "recovering-func", "tag": "", "run": 0, "errclass": ""}, Key: "history",
+			Observed: b.String(), Expected: want,
+			Detail: fmt.Sprintf("a function that recovers the failure of the exec() it evaluates: the template rendered %q (err %v), want %q", b.String(), err, want)}
+	}
+	return nil
+}
+
+// c10PointerParam: a Go function with a pointer parameter that writes through it, called with a template variable holding
+// a literal: every execution of the template gives the same result (the parsed template is not the function's to change)
+func c10PointerParam() *Result {
+	set := jet.NewSet(jet.NewInMemLoader(), jet.WithSafeWriter(nil))
+	set.AddGlobal("shout", func(s *string) string { *s += "!"; return *s })
+	set.AddGlobal("bump", func(f *float64) float64 { *f++; return *f })
+	t, err := set.Parse("/p.jet", `{{ s := "hi" }}{{ try }}{{ shout(s) }}{{ catch }}refused{{ end }}|{{ s }}|{{ n := 1 }}{{ try }}{{ bump(n) }}{{ catch }}refused{{ end }}|{{ n }}`)
+	if err != nil {
+		return nil
+	}
+	first := ""
+	for round := 0; round < 3; round++ {
+		var b bytes.Buffer
+		if err := safeExecute(t, &b, nil, nil); err != nil {
+			b.WriteString("ERROR: " + err.Error())
+		}
+		if round == 0 {
+			first = b.String()
+		} else if b.String() != first {
+			return &Result{Sig: map[string]interface{}{"kind": "pointer-param", "tag": "", "run": round, "errclass": ""}, Key: "history",
+				Observed: b.String(), Expected: first,
+				Detail: fmt.Sprintf("execution %d of one template rendered %q, the first one %q: same call, different observation", round, b.String(), first)}
+		}
+	}
+	return nil
+}
+
 func xReplayWith(tag string) func(i int, raw json.RawMessage) Result {
 	return func(i int, raw json.RawMessage) Result {
 		var v xVec
 		if err := json.Unmarshal(raw, &v); err != nil {
 			return Result{Detail: "bad vector: " + err.Error()}
 		}
+		if i == 0 && tag == "alt" {
+			if r := c10PointerParam(); r != nil {
+				return *r
+			}
+		}
+		if i == 0 && tag == "" && (strings.HasPrefix(v.Tag, "path|") || strings.HasPrefix(v.Tag, "capture|") || strings.HasPrefix(v.Tag, "builtin|") || strings.HasPrefix(v.Tag, "residue|")) {
+			// the families of Gen_C07
+			if r := xRecoveringFunc(); r != nil {
+				return *r
+			}
+		}
 		if i == 0 && tag == "" && (strings.Contains(v.Tag, "|incif") || strings.Contains(v.Tag, "|include") || strings.Contains(v.Tag, "|exec")) && strings.Count(v.Tag, "|") == 3 {
 			// the families of Gen_C09 (tag: path|site|shape|returns)
 			if r := c09LateTemplate(); r != nil {
+				return *r
+			}
+			if r := xRecoveringFunc(); r != nil {
 				return *r
 			}
 		}
